@@ -236,7 +236,30 @@ class MemSpec:
         for i in range(self.depth):
             for v in range(D):
                 out.append(("p", i, v))
+        # whole-row testbench writes of integers OUTSIDE the row's range (both sides) and sliced testbench writes; integer rows only
+        for i in range(self.depth):
+            for x in self.out_of_range():
+                out.append(("po", i, x))
+            for lo, hi in self.row_slices():
+                for v in sorted({0, _mask(hi - lo)}):
+                    out.append(("ps", i, lo, hi, v))
         return out
+
+    def out_of_range(self):
+        """integers a row of this shape cannot represent: below and above the range (wrapped on assignment like a Signal)"""
+        w = self.width
+        if kind_of(self.shape) in ("arr", "struct") or w == 0:
+            return []
+        if self.shape == "s2":
+            return [-(1 << (w - 1)) - 1, -(1 << w), 1 << (w - 1), (1 << w) + 1]        # -3, -4, 2, 5
+        return [-1, -(1 << w) + 1 - (1 << w), 1 << w, (1 << w) + _mask(w)]            # e.g. u2: -1, -7, 4, 7
+
+    def row_slices(self):
+        """proper bit ranges [lo:hi] of an integer row, written with ctx.set(mem.data[i][lo:hi], v)"""
+        w = self.width
+        if kind_of(self.shape) in ("arr", "struct") or self.shape.startswith("cust"):
+            return []
+        return [(lo, hi) for lo in range(w) for hi in range(lo + 1, w + 1) if hi - lo < w]
 
     def _overlap(self, wv, instants):
         for inst in instants:
@@ -350,7 +373,7 @@ class MemSpec:
             off += self.width
         return out
 
-    def _tb_rows(self, ctx, errs):
+    def _tb_rows(self, ctx, errs, where="init"):
         """rows as seen by a testbench through mem.data[i] (typed), returned as bit patterns"""
         rows = []
         for i in range(self.depth):
@@ -365,7 +388,7 @@ class MemSpec:
                 raw = v & _mask(self.width)
                 typed_ok = v == native_of(self.shape, raw)
             if not typed_ok:
-                errs.append(f"tb-get:row-value-type|ctx.get(mem.data[{i}]) = {v!r} is not the {self.shape} reading of bits {raw:#b}")
+                errs.append(f"tb-get:row-value-type:{where}|ctx.get(mem.data[{i}]) = {v!r} is not the {self.shape} reading of bits {raw:#b}")
             rows.append(raw)
         return tuple(rows)
 
@@ -401,18 +424,34 @@ class MemSpec:
         if it is not None:
             it.restore(self.snaps[m])     # every model state handed to step() was produced (and snapshotted) by model_init/step
         regs, dfn, rows = list(regs), list(dfn), list(rows)
-        if a[0] == "p":
-            _p, i, v = a
+        if a[0] in ("p", "po", "ps"):
+            i = a[1]
             sysm.set_inputs(0)            # the explorer loads states, not inputs: give both executions the same (idle) inputs
             if it is not None:
                 it.set({n: 0 for n in self.in_names})
-            ctx.set(self.md[i], native_of(self.shape, v))
+            if a[0] == "p":
+                v = a[2]
+                ctx.set(self.md[i], native_of(self.shape, v))
+                flags.append("tb-set")
+                when, rk = "after ctx.set(mem.data[%d], %r)" % (i, native_of(self.shape, v)), "row:after-testbench-write"
+            elif a[0] == "po":
+                # stored row = the integer wrapped into the row shape (modulo 2**width, as an assignment to a Signal would)
+                x = a[2]
+                ctx.set(self.md[i], x)
+                v = x & _mask(self.width)
+                flags.append("tb-set-below-range" if x < 0 else "tb-set-above-range")
+                when, rk = "after ctx.set(mem.data[%d], %d) (out of range, wraps to bits %d)" % (i, x, v), "row:after-out-of-range-testbench-write"
+            else:
+                _ps, _i, lo, hi, sv = a
+                ctx.set(self.md[i][lo:hi], sv)
+                v = (rows[i] & ~(_mask(hi - lo) << lo)) | (sv << lo)
+                flags.append("tb-set-slice")
+                when, rk = "after ctx.set(mem.data[%d][%d:%d], %d)" % (i, lo, hi, sv), "row:after-sliced-testbench-write"
             rows[i] = v
-            flags.append("tb-set")
             if it is not None and self.it_has_mem:
                 it.find_mem("mem")[0][i] = v
                 it.settle()
-            self._post(ctx, sysm, rows, regs, dfn, None, {}, errs, flags, "after ctx.set(mem.data[%d], %r)" % (i, native_of(self.shape, v)))
+            self._post(ctx, sysm, rows, regs, dfn, None, {}, errs, flags, when, row_kind=rk)
             return self._done(rows, regs, dfn, errs, flags)
         _e, clkmask, rstmask, wv, rv = a
         packed, named, up, down = self._packed(sysm, a)
@@ -552,7 +591,7 @@ class MemSpec:
                     regs[s] = obs[j]
                     dfn[s] = False
         if check_rows:
-            got = self._tb_rows(ctx, errs)
+            got = self._tb_rows(ctx, errs, row_kind)
             if got != tuple(rows):
                 errs.append(f"{row_kind}|{when}: rows read through mem.data[i] {got}, expected {tuple(rows)}")
                 rows[:] = list(got)
@@ -776,7 +815,7 @@ def run_batch(tasks):
     return [init_check(t[1]) if t[0] == "init" else run_config(t) for t in tasks]
 
 
-NEED = ("write", "write-partial", "write-beyond-depth", "write-disabled", "read-capture", "read-hold", "read-beyond-depth",
+NEED = ("tb-set-below-range", "tb-set-above-range", "tb-set-slice", "write", "write-partial", "write-beyond-depth", "write-disabled", "read-capture", "read-hold", "read-beyond-depth",
         "transparent-new-data", "non-transparent-old-data", "comb-read", "comb-read-beyond-depth", "tb-set",
         "read-hold:domain-reset-asserted", "read-capture:domain-reset-asserted", "two-writers-one-row-disjoint-granules",
         "rise-then-fall-domains", "two-domains-one-instant", "read-vs-other-domain-write-undefined",
@@ -855,7 +894,8 @@ def run(rep):
     rep.setcov("flags_seen", sorted(allflags))
     rep.setcov("actions", "per pulse: every clock subset x (every reset subset on /rst configurations) x per write port every (addr, data, non-zero "
                "enable mask) and every (addr, all-ones data, enable 0) x per sync read port every (addr, en) x per comb read port every addr; "
-               "plus every testbench write ctx.set(mem.data[i], v); pulses where two write ports write overlapping bits of one in-depth row at "
+               "plus every testbench write ctx.set(mem.data[i], v), whole-row writes of 4 out-of-range integers per integer-shaped row (below "
+               "and above the range) and sliced writes ctx.set(mem.data[i][lo:hi], 0 / all-ones) for every proper bit range; pulses where two write ports write overlapping bits of one in-depth row at "
                "one instant are excluded (counted in excluded_same_bit_double_write_actions)")
     rep.setcov("rule", "every configuration of the grid (row shape in u0,u1,u2,u4,s2,ArrayLayout(2,2),Struct{a:1,b:s2}; depth; 1-2 clock domains "
                "pos/neg; 0-2 write ports x every granularity; 0-2 read ports comb/sync x every transparency subset; reset none/sync/async) whose "
